@@ -62,7 +62,11 @@ def _worker(args):
         out["differential"] = run.sample_concrete(h, ndiff, seed_h + 1, repo, differential=True) if ndiff else None
         # replay counter-models natively
         for ob in out["symbolic"]["obligations"]:
-            if ob["status"] == "failed" and ob["cex"] and ob["cex"].get("inputs") is not None:
+            if ob["status"] == "failed" and ob["cex"] and h.samples == 0 and h.kind != "data":
+                # harness has no native mode (it drives the engine's stand-ins for external packages): nothing to replay
+                ob["cex"]["replay_status"] = "not-replayable"
+                ob["cex"]["inputs"] = run.jsonable(ob["cex"].get("inputs"))
+            elif ob["status"] == "failed" and ob["cex"] and ob["cex"].get("inputs") is not None:
                 st, v = run.replay_inputs(h, ob["cex"]["inputs"])
                 ob["cex"]["replay_status"] = st
                 ob["cex"]["replay_failed"] = [f[0] for f in v.failed]
@@ -70,7 +74,7 @@ def _worker(args):
                 ob["cex"]["inputs"] = run.jsonable(ob["cex"]["inputs"])
             elif ob["status"] == "failed" and ob["cex"]:
                 ob["cex"]["replay_status"] = "no-inputs"
-            elif ob["status"] == "unknown" and ob.get("candidate") is not None:
+            elif ob["status"] == "unknown" and ob.get("candidate") is not None and h.samples > 0:
                 st, v = run.replay_inputs(h, ob["candidate"])
                 if st in ("failed", "error"):
                     ob["status"] = "failed"
